@@ -229,12 +229,7 @@ func OracleC02(res *Result) []Finding {
 			} else {
 				want = queryKeys(SubQueries[res.Fed[g.Msg].Q%len(SubQueries)], false)
 			}
-			m, _ := e.Current.(map[string]interface{})
-			var got []string
-			for k := range m {
-				got = append(got, k)
-			}
-			sort.Strings(got)
+			got := e.Keys
 			if want != nil && !reflect.DeepEqual(got, want) {
 				add("c02-result-of-foreign-query", "event %d: a computation of %s (generation %d) produced a result with fields %v, its query selects %v", i, g.ID, g.Gen, got, want)
 			}
